@@ -220,10 +220,15 @@ impl<F: Write + Seek> Allocator<F> {
     ) -> io::Result<u32> {
         debug_assert_ne!(start_sector_id, consts::END_OF_CHAIN);
         let mut last_sector_id = start_sector_id;
+        let mut num_steps = 0;
         loop {
-            let next = self.fat[last_sector_id as usize];
+            let next = self.next(last_sector_id)?;
             if next == consts::END_OF_CHAIN {
                 break;
+            }
+            num_steps += 1;
+            if num_steps > self.fat.len() {
+                invalid_data!("Chain containing sector {} has a loop", next);
             }
             last_sector_id = next;
         }
@@ -358,7 +363,14 @@ impl<F: Write + Seek> Allocator<F> {
         debug_assert!(index <= self.fat.len());
         let fat_entries_per_sector =
             self.sectors.sector_len() / size_of::<u32>();
-        let fat_sector_id = self.difat[index / fat_entries_per_sector];
+        let Some(&fat_sector_id) =
+            self.difat.get(index / fat_entries_per_sector)
+        else {
+            invalid_data!(
+                "FAT entry {} is not covered by any FAT sector in the DIFAT",
+                index
+            );
+        };
         let offset_within_sector = 4 * (index % fat_entries_per_sector) as u64;
         let mut sector = self
             .sectors
